@@ -114,6 +114,9 @@ func RunC03(c *Ctx) {
 				if p != m.Node.End {
 					c.Rec.Violate(cs, r.name+" offset!=model", r.name, fmt.Sprintf("p=%d", m.Node.End), fmt.Sprintf("p=%d", p))
 				}
+				if c.Rec.R.Cases%2 == 0 {
+					scribbleSpare(got) // the caller fills the spare capacity of its slices: nothing else may live there
+				}
 				if !refmodel.EqTree(want, got) {
 					c.Rec.Violate(cs, r.name+" tree!=model", r.name, show(want), show(got))
 				} else if jok && !refmodel.EqTree(refmodel.CompatTree(got), jval) {
